@@ -158,6 +158,8 @@ pub fn run(ctx: &mut Ctx) {
     let n = ctx.n(24_000, 240_000);
     let mut rng = ctx.rng("prefix", 0);
     let o = Opts::default();
+    let mut rx = vec![0u8; 4_096];
+    let mut prev_msg: Vec<u8> = vec![];
     for i in 0..n {
         let (m, _g) = if i % 3 == 2 {
             // builder-made
@@ -175,6 +177,38 @@ pub fn run(ctx: &mut Ctx) {
         }
         ctx.distinct(hash64(&[m.len() as u64, crate::ctx::hash_bytes(&m[..m.len().min(48)])]));
         ctx.count("messages");
+        // a receive buffer that is reused: a prefix of the previous message was parsed at this very
+        // address a moment ago, now (at least as many) bytes of this one sit there
+        if prev_msg.len() > 20 && m.len() >= 24 {
+            let n1 = 20 + rng.usize(prev_msg.len() - 20);
+            rx[..n1].copy_from_slice(&prev_msg[..n1]);
+            let _ = guard(|| Message::from_bytes(&rx[..n1]).is_ok());
+            for n2 in [n1, n1 + 1, n1 + 4, m.len() - 1, m.len()] {
+                if n2 >= 20 && n2 <= m.len() && n2 >= n1 {
+                    rx[..n2].copy_from_slice(&m[..n2]);
+                    let r = guard(|| Message::from_bytes(&rx[..n2]).map(|_| ()));
+                    let ok = match &r {
+                        Ok(Ok(())) => n2 == m.len(),
+                        Ok(Err(StunParseError::Truncated { expected, actual })) => n2 < m.len() && *expected == m.len() && *actual == n2,
+                        _ => false,
+                    };
+                    if !ok {
+                        ctx.violation(
+                            "C17",
+                            "truncated-fields",
+                            "Message::from_bytes",
+                            "reused-receive-buffer",
+                            || wit(&m, n2),
+                            if n2 == m.len() { "Ok".to_string() } else { format!("Truncated {{ expected: {}, actual: {n2} }}", m.len()) },
+                            format!("{r:?} (after {n1} bytes of a {}-byte message were parsed at the same address)", prev_msg.len()),
+                        );
+                        break;
+                    }
+                    ctx.count("prefixes-in-a-reused-receive-buffer");
+                }
+            }
+        }
+        prev_msg = m.clone();
         for cut in 0..m.len() {
             check_prefix(ctx, &m, cut);
         }
@@ -225,6 +259,30 @@ pub fn run(ctx: &mut Ctx) {
         }
         ctx.require("message-types-cut", 16_384);
     ctx.require("accepted-buffers-compared-with-their-header", 10_000);
+    }
+    // ---- buffers larger than any STUN message that do not start with a STUN header: not STUN for
+    //      the parser as for the header decoder, whatever their size ----
+    {
+        let mut r5 = ctx.rng("oversized-non-stun", 0);
+        for k in 0..ctx.n(16, 160) {
+            let len = *r5.pick(&[65_556usize, 65_557, 65_560, 70_000, 131_072]);
+            let mut b = r5.bytes(len);
+            match k % 4 {
+                0 => b[0] |= 0x80,
+                1 => b[0] = (b[0] & 0x3f) | 0x40,
+                2 => {
+                    b[0] &= 0x3f;
+                    b[4..8].copy_from_slice(&[0x21, 0x12, 0xa4, 0x43]);
+                }
+                _ => {
+                    b[0] &= 0x3f;
+                    b[4..8].copy_from_slice(&[0, 0, 0, 0]);
+                }
+            }
+            header_vs_parser(ctx, &b, b.len());
+            header_vs_parser(ctx, &b, 20);
+            ctx.count("oversized-non-stun-buffers");
+        }
     }
     // ---- large messages, sampled cuts ----
     let nl = ctx.n(120, 1_200);
